@@ -3,7 +3,7 @@
    model of FeatureDB.children/parents (Model/Query.v); [in_domain] = unique, non-empty ids
    (one ID value per line) free of tab/newline. *)
 From GV Require Import Base.Prelude Base.PyStr Model.Bins Model.DB Model.Parser Model.Query Model.Import Model.Hier
-  Proofs.C02Proofs.
+  Proofs.C02Proofs Proofs.C02Hist.
 From Coq Require Import Permutation.
 Open Scope Z_scope.
 
@@ -93,3 +93,13 @@ Theorem C02_relations_step_exact : forall st,
        exists y, In (mkRel (rel_parent x) y 1) (s_rels st) /\ In (mkRel y (rel_child x) 1) (s_rels st)).
 Proof. exact l_relations_step. Qed.
 Print Assumptions C02_relations_step_exact.
+
+(* ... and over every history of imports into one database - create_db, then any number of update() calls, each with
+   its own strategy among error / warning / create_unique / merge (the ones that never delete), ids and Parent values
+   free of TAB/CR/LF: the level-2 rows are exactly the compositions of two level-1 rows starting at a stored feature
+   (closed2: nothing deeper is ever recorded as level 2; complete2: no grandchild of a stored feature is missing -
+   also when the grandparent arrives in a later update than its grandchildren), and no other level occurs *)
+Theorem C02_history_closed : forall call force spec bs st', (forall b, In b bs -> fst b <> SReplace) ->
+  imports call force spec bs empty_st = Ok st' -> closed2 st' /\ complete2 st' /\ levels12 st'.
+Proof. exact l_history_from_empty. Qed.
+Print Assumptions C02_history_closed.
